@@ -56,6 +56,7 @@ type FuncSpec struct {
 	TypedPtrs  bool // assume distinct instances of one struct type never overlap
 	WFHeap     bool     // assume that every reference stored in a freshly introduced heap component is allocated
 	NamedInv   bool     // closed quantified macro bodies are named by boolean constants (one per invariant and state)
+	MapCard    bool     // assume length = cardinality instances (0, 1, 2 keys) for every freshly introduced map key set
 	Pathwise   bool     // postconditions are checked at every return separately instead of once on the merged exit state
 	Reveal     []string // opaque spec functions whose definition this function's proof may use
 	AllocFresh bool // results are freshly allocated
@@ -317,6 +318,8 @@ func ParseFile(path, defaultPkg string) (*File, error) {
 				cur.WFHeap = true
 			case "pathwise":
 				cur.Pathwise = true
+			case "mapcard":
+				cur.MapCard = true
 			case "namedinv":
 				cur.NamedInv = true
 			case "reveal":
